@@ -193,9 +193,8 @@ func (p *Parser) Parse() (*SelectStatement, error) {
 
 	// 解析 MATCH_RECOGNIZE 子句（CEP，FROM 后、WHERE 前）
 	if err := p.parseMatchRecognize(stmt); err != nil {
-		if !p.errorRecovery.RecoverFromError(ErrorTypeSyntax) {
-			return nil, p.createDetailedError(err)
-		}
+		// 不做错误恢复：丢掉解析失败的 MATCH_RECOGNIZE 子句会让语句静默地按普通 SELECT 执行。
+		return nil, p.createDetailedError(err)
 	}
 
 	// 解析WHERE子句
